@@ -19,7 +19,7 @@ import (
 func init() {
 	fw.Register(&fw.Check{
 		ID: "C18", Level: "model_checking",
-		Rule:   "ban sets = none, all 30 singletons, all pairs from {INCLUDE, MACRO, PASTE, TYPE, Body, Path} (thorough: all 435 pairs) x documents = every closed selection of 1..2 pool blocks, each also with its last declaration moved into an included file, plus INCLUDE-of-a-missing-file probes; oracle: a banned kind occurs (directly, through a live PASTE, in an included file) => rejected with 'not allowed' located inside an occurrence of a banned kind and before the named file is touched; no banned kind occurs => result identical to the run without the option; non-trivial = (document, ban set) where a banned kind occurs; distinct = distinct (document, ban set)",
+		Rule:   "ban sets = none, all 30 singletons, all pairs from {INCLUDE, MACRO, PASTE, TYPE, Body, Path} (thorough: all 435 pairs) x documents = every closed selection of 1..2 pool blocks, each also with its last declaration moved into an included file, plus INCLUDE-of-a-missing-file probes; oracle: a banned kind occurs (directly, through a live PASTE, in an included file) => rejected with 'not allowed' located inside an occurrence of a banned kind and before the named file is touched; no banned kind occurs => result identical to the run without the option; non-trivial = (document, ban set) where a banned kind occurs; distinct = distinct (document, ban set) ; option values are reusable: for every ordered pair X != Y of the six core kinds, a project with Y and without X, first with [ban X (shared value), ban Y] => 'not allowed', then with the shared value alone => exactly the result without the option",
 		Assume: []string{"a banned kind that occurs only inside a never-pasted macro body is not judged (the property lists written directly / by PASTE / included file)"},
 		Run:    runC18, QuickCap: 8 * time.Minute, ThoroughCap: 40 * time.Minute,
 	})
